@@ -75,7 +75,16 @@ def main():
             if s and "benign" not in os.path.basename(os.path.dirname(m)):
                 prev.append("- " + s)
         t = BREAK if kind == "break" else BENIGN
-        open(os.path.join(sd, "PROMPT.txt"), "w").write(t.format(wt=wt, sd=sd, pid=pid, txt=txt, prev="\n".join(prev) or "- (none yet)"))
+        text = t.format(wt=wt, sd=sd, pid=pid, txt=txt, prev="\n".join(prev) or "- (none yet)")
+        if kind != "break":
+            done = []
+            for m in sorted(glob.glob(os.path.join(VERIF, "seeded", "benign-" + pid + "*", "meta.json"))):
+                s_ = json.load(open(m)).get("summary", "")
+                if s_:
+                    done.append("- " + s_)
+            if done:
+                text = text.replace("Constraints: no network.", "Other engineers have already made the following restructurings for this property, so restructure DIFFERENT functions or use different techniques (for example: change a data representation, merge or split functions the other way round, convert between early returns and nested conditionals, introduce a small class or dataclass for a tuple, replace index loops by enumerate/zip, move code between caller and callee, rename methods and update all callers, reorder method definitions, turn a nested function into a method or module-level function):\n" + "\n".join(done) + "\n\nConstraints: no network.")
+        open(os.path.join(sd, "PROMPT.txt"), "w").write(text)
     print("written")
 
 
